@@ -264,7 +264,7 @@ func ToInteger(p Primary) Primary {
 	case *Integer:
 		return NewInteger(val.Raw())
 	case *Float:
-		if math.IsNaN(val.Raw()) || math.IsInf(val.Raw(), 0) {
+		if isOutOfInt64(val.Raw()) {
 			return NewNull()
 		}
 		return NewInteger(int64(val.Raw()))
@@ -273,12 +273,18 @@ func ToInteger(p Primary) Primary {
 		if i, e := strconv.ParseInt(s, 10, 64); e == nil {
 			return NewInteger(i)
 		}
-		if f, e := strconv.ParseFloat(s, 64); e == nil {
+		if f, e := strconv.ParseFloat(s, 64); e == nil && !isOutOfInt64(f) {
 			return NewInteger(int64(f))
 		}
 	}
 
 	return NewNull()
+}
+
+// isOutOfInt64 reports whether f has no 64-bit integer part: NaN, the infinities and the numbers beyond the range,
+// for which the result of the conversion int64(f) is not defined.
+func isOutOfInt64(f float64) bool {
+	return math.IsNaN(f) || f < -9223372036854775808.0 || 9223372036854775808.0 <= f
 }
 
 func ToIntegerStrictly(p Primary) Primary {
